@@ -2,12 +2,12 @@ use crate::document::DocumentRequest;
 use color_eyre::eyre::Result;
 use lsp_types::{CompletionItem, CompletionItemKind, CompletionParams, Documentation, MarkupKind};
 use spl_frontend::{
-    ast::{GlobalDeclaration, ProcedureDeclaration, Reference, Statement},
+    ast::{Expression, GlobalDeclaration, ProcedureDeclaration, Reference, Statement},
     table::{
         GlobalEntry, GlobalTable, LocalEntry, LocalTable, LookupTable, SymbolTable, TableEntry,
     },
     tokens::{Token, TokenList, TokenType},
-    ToTextRange,
+    ToRange, ToTextRange,
 };
 use tokio::sync::mpsc::Sender;
 
@@ -231,14 +231,43 @@ fn complete_statement(
         Statement::If(i) => {
             complete_branch!(&i.if_branch, position, tokens, last_token, lookup_table);
             complete_branch!(&i.else_branch, position, tokens, last_token, lookup_table);
+            if is_behind_condition(&i.condition, tokens, position) {
+                // a branch statement starts here
+                return Some(new_stmt(lookup_table));
+            }
             complete_vars(tokens, position, lookup_table, TokenType::LParen)
         }
         Statement::While(w) => {
             complete_branch!(&w.statement, position, tokens, last_token, lookup_table);
+            if is_behind_condition(&w.condition, tokens, position) {
+                // the loop body starts here
+                return Some(new_stmt(lookup_table));
+            }
             complete_vars(tokens, position, lookup_table, TokenType::LParen)
         }
         Statement::Error(_) | Statement::Empty(_) => Some(new_stmt(lookup_table)),
     }
+}
+
+/// True if the position is behind the closing parenthesis of the condition
+/// of an `if` or `while` statement, whose tokens are given.
+fn is_behind_condition(
+    condition: &Option<Reference<Expression>>,
+    tokens: &[Token],
+    position: usize,
+) -> bool {
+    condition
+        .as_ref()
+        .and_then(|condition| {
+            let condition_end = condition.offset + condition.to_range().end;
+            tokens
+                .get(condition_end..)?
+                .iter()
+                .find(|token| !matches!(token.token_type, TokenType::Comment(_)))
+        })
+        .map_or(false, |token| {
+            matches!(token.token_type, TokenType::RParen) && position >= token.range.start
+        })
 }
 
 fn complete_vars(
